@@ -55,13 +55,13 @@ func runC06(c *Ctx, r *Report) {
 	importFoundation(c, r, "C06", "read-loop")
 	r.Rule("C06/conn-never-nil", "a connection handle of interface type that a transport invokes without a nil test is never reset to nil (a nil store makes the next Close / Write / Read panic instead of failing)", 1)
 	checkConnNeverNil(c, r, "C06/conn-never-nil")
-	r.Rule("C06/loop-error-examined", "a connection operation repeated in a loop has its error examined before the loop calls it again", 8)
+	r.Rule("C06/loop-error-examined", "a connection operation repeated in a loop has its error examined before the loop calls it again", 4)
 	checkLoopErrorExamined(c, r, "C06/loop-error-examined")
 	r.Rule("C06/always-fetches-prompt", "AcquirePriv reports success only after it fetched the device's prompt (a lost connection cannot be reported as success)", 1)
 	checkAcquireAlwaysFetchesPrompt(c, r, "C06/always-fetches-prompt")
 	r.Rule("C06/error-classes", "each failure site named by the property wraps the sentinel the property names (timeout / auth / connection / privilege / NETCONF / operation / platform error)", 2)
 	checkErrorClasses(c, r, "C06")
-	r.Rule("C06/propagate", "at every call site of an I/O-capable function the error surfaces (returned, sent, or stored in a returned/sent result) and the failing edge neither retries, nor continues with I/O, nor returns success", 90)
+	r.Rule("C06/propagate", "at every call site of an I/O-capable function the error surfaces (returned, sent, or stored in a returned/sent result) and the failing edge neither retries, nor continues with I/O, nor returns success", 40)
 	r.Rule("C06/reader", "the channel read loop exits on end-of-stream, sets the exited flag on every exit, and Channel.Read tests error channel and exited flag before dequeuing", 4)
 	r.Rule("C06/netconf-forward", "sendRPC waits on the NETCONF error channel and returns the error it receives; the NETCONF reader never leaves its loop because of a channel error", 2)
 
